@@ -2,6 +2,7 @@
 RpcError.from_errors (real code, real registry dumped from RpcError.__handlers__, and the same
 code under substituted registries) vs Client/ErrorMap.v `from_errors`."""
 import itertools
+import os
 
 import lib
 from lib import clist, cnat, cstr
@@ -140,7 +141,7 @@ def run(ctx: lib.Ctx) -> None:
     ctx.table('RpcError.__handlers__ (error id -> class) vs Client.ErrorMap.handlers')
     ctx.extra['registry'] = real_named
     tbl_case = [(creg(sorted(real_named.items())), 'true')]
-    tbl_bad = ctx.coq_mismatches('table', IMPORTS, 'fun t => table_eqb t handlers_named', 'Bool.eqb', 'registry string', 'bool',
+    tbl_bad = ctx.coq_mismatches(f'table{os.getpid()}', IMPORTS, 'fun t => table_eqb t handlers_named', 'Bool.eqb', 'registry string', 'bool',
                                  tbl_case, prelude=intern_prelude())
     expected_tbl = {'michelson_v1.bad_contract_parameter': 'MichelsonBadContractParameter', 'michelson_v1.bad_return': 'MichelsonBadReturn',
                     'michelson_v1': 'MichelsonError', 'tez': 'TezArithmeticError', 'script_rejected': 'MichelsonScriptRejected'}
@@ -218,7 +219,7 @@ def run(ctx: lib.Ctx) -> None:
             add(ri, prefix_errors() + [ident], 'substituted')
 
     prelude = intern_prelude() + regs_def
-    bad = ctx.coq_mismatches('errormap', IMPORTS, 'run_case regs', 'raised_eqb', 'nat * list ident', 'raised string', cases,
+    bad = ctx.coq_mismatches(f'errormap{os.getpid()}', IMPORTS, 'run_case regs', 'raised_eqb', 'nat * list ident', 'raised string', cases,
                              shard=ctx.n(1000, 3000), prelude=prelude)
 
     # (B)
